@@ -192,6 +192,24 @@ class World:
             ev["o"] = {"latf": lat, "lonf": float(cm), "zonearg": zone, "ell": {"name": ell[0]}, "prj": {"name": prj[0]}}
         return ev
 
+    def tm_event(self, tri, tdl, zone, ell, prj, tag):
+        """forward + inverse at Pythagorean latitude `tri` and Pythagorean longitude difference `tdl` from the CM"""
+        P = prj[1]
+        cm = zone * P.zonewidth + P.initialcm - P.zonewidth
+        lat = math.degrees(math.atan2(tri[0], tri[1]))
+        lon = cm + math.degrees(math.atan2(tdl[0], tdl[1]))
+        ev = {"k": "TM", "exc": "", "tag": tag}
+        try:
+            o = self.observe(lat, lon, zone, ell, prj)
+            o["tri"] = list(tri)
+            o["tdl"] = list(tdl)
+            o["n0"] = fix.enc(1.0 / (2.0 * float(ell[1].inversef) - 1.0))
+            ev["o"] = o
+        except Exception as ex:
+            ev["exc"] = "%s: %s" % (type(ex).__name__, str(ex)[:100])
+            ev["o"] = {"latf": lat, "lonf": lon, "zonearg": zone, "ell": {"name": ell[0]}, "prj": {"name": prj[0]}}
+        return ev
+
     def zone_event(self, lon100, lat, prj, tag):
         (pn, P) = prj
         ev = {"k": "ZONE", "exc": "", "tag": tag, "o": {"lon100": lon100, "zw": int(P.zonewidth), "cm1": int(P.initialcm), "zone": 0}}
@@ -262,7 +280,7 @@ def validate(traces, ctx, label):
 
 def describe_event(ev):
     k = ev["k"]
-    if k in ("P", "CM"):
+    if k in ("P", "CM", "TM"):
         o = ev["o"]
         return {"lat": o.get("latf"), "lon": o.get("lonf"), "zonearg": o.get("zonearg"), "ell": o["ell"]["name"], "prj": o["prj"]["name"],
                 "fwd": o.get("fwd", {}).get("hex", ""), "inv_exc": o.get("inv", {}).get("exc", "")}
